@@ -130,9 +130,9 @@ static void case_encode(long idx, ksym *s, vrng *r, const cpucfg *lvl)
 	ini(k, rows, a, tbl);
 	uint64_t tblh = v_hash64(tbl, (size_t) 32 * k * rows, 1);
 	if (V_TRY(20)) {
-		if (s->fam == F_ENC) ((fn_enc) s->fn)(len, k, rows, tbl, sp, dp);
-		else if (s->n == 1) ((fn_dot1) s->fn)(len, k, tbl, sp, dp[0]);
-		else ((fn_dotn) s->fn)(len, k, tbl, sp, dp);
+		if (s->fam == F_ENC) V_ABI(s->fn, len, k, rows, tbl, sp, dp);
+		else if (s->n == 1) V_ABI(s->fn, len, k, tbl, sp, dp[0]);
+		else V_ABI(s->fn, len, k, tbl, sp, dp);
 		V_END;
 	} else { report_fault(s, "encode"); goto out; }
 	s->calls++; s->resmask |= 1ull << (len & 63); s->alnmask |= 1ull << ((uintptr_t) dp[0] & 63);
@@ -194,9 +194,9 @@ static void case_update(long idx, ksym *s, vrng *r, const cpucfg *lvl)
 	for (int u = 0; u < n && !bad; u++) {
 		int vi = order[u];
 		if (V_TRY(20)) {
-			if (s->fam == F_UPD) ((fn_upd) s->fn)(len, k, rows, vi, tbl, srcs[vi], dp);
-			else if (s->n == 1) ((fn_mad1) s->fn)(len, k, vi, tbl, srcs[vi], dp[0]);
-			else ((fn_madn) s->fn)(len, k, vi, tbl, srcs[vi], dp);
+			if (s->fam == F_UPD) V_ABI(s->fn, len, k, rows, vi, tbl, srcs[vi], dp);
+			else if (s->n == 1) V_ABI(s->fn, len, k, vi, tbl, srcs[vi], dp[0]);
+			else V_ABI(s->fn, len, k, vi, tbl, srcs[vi], dp);
 			V_END;
 		} else { report_fault(s, "update"); bad = 1; break; }
 		s->calls++;
@@ -246,7 +246,7 @@ static void case_mul(long idx, ksym *s, vrng *r)
 	gf_vect_mul_init(c, tbl);
 	v_setcase(idx, "sym=%s len=%d c=%02x tag=%llx", s->name, len, c, (unsigned long long) tag);
 	int rc = 0;
-	if (V_TRY(20)) { rc = ((fn_mul) s->fn)(len, tbl, src, dst); V_END; } else { report_fault(s, "gf_vect_mul"); goto out; }
+	if (V_TRY(20)) { rc = (int) V_ABI(s->fn, len, tbl, src, dst); V_END; } else { report_fault(s, "gf_vect_mul"); goto out; }
 	s->calls++; s->resmask |= 1ull << ((len / 32) & 63);
 	char key[200];
 	if (okal) {
